@@ -238,6 +238,19 @@ class WcMatchInit(Contract):
                 'self._get_cwd': opaque('_get_cwd'), 'self.on_init': opaque('on_init'), 'self._compile': opaque('_compile'), 'os.fsencode': h_fsencode,
                 'os.sep': lambda eng, node, st, args: pyvc.Str('/')}
 
+    def crosscheck(self, eng, paths, inp):
+        from .base import init_crosscheck
+        from wcmatch import wcmatch
+
+        def build(m):
+            ev = lambda t: z3.is_true(m.eval(t, model_completion=True))      # noqa: E731
+            rb = ev(self.root_bytes)
+            fp = None if ev(self.fp_none) else (b'*.x' if ev(self.fp_bytes) else '*.x')
+            ep = None if ev(self.ep_none) else (b'd' if ev(self.ep_bytes) else 'd')
+            return wcmatch.WcMatch(b'.' if rb else '.', fp, ep, flags=0, limit=m.eval(self.L, model_completion=True).as_long())
+        return init_crosscheck(self, eng, paths, inp, build, extra=[self.L >= 0, self.L < 5000, z3.BitVec('flags', pyvc.BV) == 0],
+                               vary=[self.L, self.root_bytes, self.fp_none, self.ep_none])
+
     @property
     def invariants(self):
         return {1: ('(file_pattern, exclude_pattern)', lambda st, k: z3.BoolVal(True))}
